@@ -251,6 +251,13 @@ def signature_checks():
                 fails.append(("C20", f"{c}{p}: create().signature != the original signature", f"roundtrip:{c}"))
         except Exception as e:
             fails.append(("C20", f"{c}{p}: create() raised {type(e).__name__}: {e}", f"create:{c}"))
+        # the interface may be an array member of a larger signature: Amaranth then passes a path with an integer part
+        try:
+            i2 = s.create(path=("bank", 3, "bus"))
+            if not (i2.signature == s):
+                fails.append(("C20", f"{c}{p}: create(path=('bank', 3, 'bus')).signature != the original signature", f"roundtrip-path:{c}"))
+        except Exception as e:
+            fails.append(("C20", f"{c}{p}: create(path=('bank', 3, 'bus')) raised {type(e).__name__}: {str(e)[:100]}", f"create-path:{c}"))
         # member presence and widths follow the parameters
         if c == "wishbone.Signature":
             names = set(s.members.keys())
@@ -299,6 +306,21 @@ def signature_checks():
                     fails.append(("C20", f"{c}: a subclass instance with parameters {kw} equals the signature with {other[0]}", f"subclass-eq:{c}"))
             except Exception as e:
                 fails.append(("C20", f"{c}{kw}: a trivial subclass cannot be used: {type(e).__name__}: {str(e)[:100]}", f"subclass:{c}"))
+    # a caller may hang an attribute of its own on a signature object (a tag, an owner): the defining parameters are what
+    # equality looks at
+    for c, p, mk in rows[::7]:
+        try:
+            a, b = mk(), mk()
+            try:
+                a.verif_owner = "tagged"
+            except AttributeError:
+                continue
+            stats["pairs"] += 2
+            if not (a == b) or not (b == a) or not (a.create().signature == a):
+                fails.append(("C20", f"{c}{p}: after `sig.verif_owner = ...` on one of two signatures with the same parameters: a == b is {a == b}, "
+                                     f"b == a is {b == a}, create() round trip is {a.create().signature == a}", f"tagged-eq:{c}"))
+        except Exception as e:
+            fails.append(("C20", f"{c}{p}: tagging a signature object: {type(e).__name__}: {str(e)[:100]}", f"tagged:{c}"))
     # a signature does not change when the caller goes on using (and changing) the collection it passed in
     for fs0 in ({"err"}, {"lock", "cti"}, set()):
         for conv in (lambda x: set(x), lambda x: {wishbone.Feature(f) for f in x}, lambda x: sorted(x)):
